@@ -34,7 +34,7 @@ FLOOR = {"quick": 20, "thorough": 120}
 
 def parts(tier):
     if tier == "quick":
-        return [{"name": "pairs", "n": 224}, {"name": "historical", "n": 48}]
+        return [{"name": "pairs", "n": 384}, {"name": "historical", "n": 64}]
     return [{"name": "pairs", "n": 4000}, {"name": "historical", "n": 480}]
 
 
